@@ -20,6 +20,53 @@ CLAIMED = {
                 "Gibbs boundaries are covered only through the random-bounds traces.",
         "ref": "DESIGN.md section 3 C04",
     },
+    "C01": {
+        "technique": "TLA+ step machines (Samplers, Ensemble, HmcStep) model-checked by TLC; detailed-balance / proposal-symmetry / "
+                     "irreducibility identities evaluated by TLC on the kernel table tabulated from the real samplers; every TLC "
+                     "behaviour replayed into the real samplers with scripted draws",
+        "text": "Exhaustive on integer/dyadic lattices (exact Metropolis ratios): every single-step behaviour of Metropolis/Gibbs/PCA "
+                "under every decision-relevant draw, seeded multi-step walks, ensemble stretch moves and HMC attempts are executed on "
+                "the real code and every evaluated point, sample, stored probability and decision compared with the TLC state; the "
+                "MH identities are decided by TLC on the implementation's own one-attempt kernel.",
+        "note": "Trusted: TLC; lattice posteriors (off-lattice only exp() differs); stretch-density and HMC volume lemmas; adaptation "
+                "frozen (tuning is a free parameter). The retry-until-accept loops are a recorded known finding (F1).",
+        "ref": "DESIGN.md section 3 C01",
+    },
+    "C03": {
+        "technique": "ProbsBelong/LenAgree/ArgMax invariants in the TLA+ step machines, Tempering and Ownership models checked by TLC; "
+                     "multi-step TLC behaviours replayed into all samplers; real tempering runs trace-validated by PTTrace.tla",
+        "text": "Every multi-step behaviour is replayed with the complete (sample, probability) history compared, mode() checked against "
+                "the TLC arg-max set; every interleaving of two samplers built from shared arrays (Ownership.tla) is replayed on all "
+                "five sampler classes; exchanged points are checked in every state of real multi-process runs and at every index of "
+                "the returned chains.",
+        "note": "Trusted: TLC, lattice posteriors, fork start method. replace_last alone (without the probability update the worker "
+                "performs) is outside the property.",
+        "ref": "DESIGN.md section 3 C03",
+    },
+    "C07": {
+        "technique": "Leapfrog.tla state machine in exact dyadic arithmetic model-checked by TLC (reversibility, Jacobian determinant, "
+                     "exact shadow-energy conservation, mass consistency); every exact orbit replayed bit-exactly into run_leapfrog / "
+                     "sample_momentum / hamiltonian; finite_diff call traces validated by FdTrace.tla",
+        "text": "All orbits of a family of quadratic potentials x masses (scalar/vector/matrix) x temperatures x step sizes x boxes are "
+                "enumerated; the real integrator must reproduce every gradient-evaluation point, end point and energy exactly and "
+                "return to the start after forward-flip-forward; off-lattice random orbits are checked to 1e-9 and for the 4x energy "
+                "error ratio; finite-difference gradients are trace-validated including zero-valued coordinates.",
+        "note": "Trusted: TLC; quadratic potentials only for the exact identities (Stormer-Verlet order for other potentials is a lemma). "
+                "Known finding F24: walls + non-diagonal inverse mass are not reversible.",
+        "ref": "DESIGN.md section 3 C07",
+    },
+    "C08": {
+        "technique": "Tempering.tla (master, N workers, FIFO pipes, shutdown event) model-checked by TLC incl. liveness; real "
+                     "multi-process ParallelTempering runs under injected delay schedules validated event-by-event by PTTrace.tla",
+        "text": "All interleavings of 3 workers and the master are explored (ProbsBelong, PairsDisjoint, EqualAdvance, ReturnComplete, "
+                "termination, unique terminal state for fixed seeds); the cycle arithmetic of advance and the as-built pairing strategy "
+                "are checked for all sizes in range; real runs (1-6 chains, several delay schedules, with and without progress display) "
+                "are recorded through traced pipes and TLC must explain every event, inferring the pairing; final chains must be "
+                "identical across schedules and the workers dead after shutdown.",
+        "note": "Trusted: TLC, fork start method, traced-pipe wrappers. OS-level failures (killed worker) are outside the property; "
+                "run_for of the tempering object is covered by C15's clock model only.",
+        "ref": "DESIGN.md section 3 C08",
+    },
 }
 
 NOT_YET = {}
